@@ -509,7 +509,16 @@ func runCheck(spec *propSpec, tier string) int {
 				violations = append(violations, dst)
 				fmt.Printf("--- native fuzzing found a failing input (tail) ---\n%s\n", tail(out, 15))
 			} else if werr != nil && !strings.Contains(out, "context deadline exceeded") {
-				fmt.Printf("NOTE native fuzzing ended with %v (no failing case recorded)\n%s\n", werr, tail(out, 8))
+				// e.g. a fuzz worker that died or was killed: keep what the fuzzer saved and say what it said
+				saved := 0
+				if files, _ := filepath.Glob(filepath.Join(root, "props", "testdata", "fuzz", "FuzzProp", "*")); len(files) > 0 {
+					for _, f := range files {
+						copyFile(f, filepath.Join(replayDir, fmt.Sprintf("%s-%s-fuzz-input-%s", spec.ID, tier, filepath.Base(f))))
+						saved++
+					}
+				}
+				os.WriteFile(filepath.Join(work, "fuzz.log"), []byte(out), 0o644)
+				fmt.Printf("NOTE native fuzzing ended with %v (no failing case recorded; %d raw fuzz inputs saved under replays/, full output in %s)\n%s\n", werr, saved, filepath.Join(work, "fuzz.log"), tail(out, 30))
 			}
 		}
 		os.RemoveAll(filepath.Join(root, "props", "testdata", "fuzz"))
